@@ -251,7 +251,22 @@ of_linear_binary_code_finish_decoding_with_ml (of_linear_binary_code_cb_t	*ofcb)
 	{
 		if (ofcb->encoding_symbols_tab[i] == NULL)
 		{
-			ofcb->encoding_symbols_tab[i] = variable_member[nb_computed_repair_in_ml];
+			void	*decoded_symbol = variable_member[nb_computed_repair_in_ml];
+
+			if (decoded_symbol != NULL && ofcb->decoded_source_symbol_callback != NULL)
+			{
+				/* this source symbol has just been decoded: tell the application, and
+				 * move the symbol to its buffer if it provides one */
+				void	*app_buf = ofcb->decoded_source_symbol_callback (ofcb->context_4_callback,
+										ofcb->encoding_symbol_length, i);
+				if (app_buf != NULL)
+				{
+					memcpy (app_buf, decoded_symbol, ofcb->encoding_symbol_length);
+					of_free (decoded_symbol);
+					decoded_symbol = app_buf;
+				}
+			}
+			ofcb->encoding_symbols_tab[i] = decoded_symbol;
 			nb_computed_repair_in_ml++;
 		}
 	}
